@@ -1,6 +1,7 @@
 SPECIFICATION GenSpec
 CONSTANTS
-  Kinds = {"removeslash", "addslash", "static1", "static2", "auth_rel", "auth_query", "auth_abs"}
+  Kinds = {"removeslash", "addslash", "static1", "static2", "static3", "auth_rel", "auth_query", "auth_abs"}
+  Forms = {"origin", "absolute"}
   Methods = {"GET", "HEAD"}
   SegToks = {"a", "empty", "evil", "bs", "bsevil", "pslash", "pbs", "sub", "d", "dotdot", "at", "sp", "amp"}
   PathLen = 2
